@@ -1,8 +1,8 @@
 CONSTANTS Carriers = {"xds"} Vals = {"a", "b", "u"} Labels = {} Times = {} Bads = {}
   WssWords = {} MaxRecv = 8 UnknownOnce = TRUE XdsGuard = FALSE Calls = {"a", "b"}
-  Handlers = {"h1"} InitMasks = {{"NETWORK", "NETWORK_ID", "PROG_ID", "LOCAL_TIME", "ASPECT", "TTX_PAGE", "CAPTION"}} RegMasks = {} Apis = {"reg"} MaxReg = 0
+  Handlers = {"h1"} InitMasks = {{"NETWORK", "NETWORK_ID", "PROG_ID", "LOCAL_TIME", "ASPECT", "TTX_PAGE", "CAPTION"}} RegMasks = {} Apis = {"reg"} MaxReg = 0 CdLen = 40 IdleSteps = {} MaxGap = 0 MaxIdle = 0
 SPECIFICATION Spec
 CONSTRAINT Bounded
 INVARIANTS TypeOK Faithful XdsSettles
-PROPERTIES OfThisReception OnlyAfterRepeat VpsLabelTwice NetworkMeansChange OneNetworkEvent NotAgainWhileSame StationKept CacheKept CacheDropped Gated WssOnlyAfterRepeats AspectRevertOnlyOnChange
+PROPERTIES OfThisReception OnlyAfterRepeat VpsLabelTwice NetworkMeansChange OneNetworkEvent NotAgainWhileSame StationKept CacheKept CacheDropped Gated WssOnlyAfterRepeats AspectRevertOnlyOnChange GapKeeps DropOutOnce
 CHECK_DEADLOCK FALSE
